@@ -88,6 +88,8 @@ def scan(binary, mode, seed0, count, hashfile):
 def schedule_text(f):
     t = [f"clients {f['clients']}"]
     for seg in f["segments"]:
+        for c in seg.get("respawn_before", []):
+            t.append(f"respawn {c}")
         t.append("seg")
         for c in seg["calls"]:
             t.append(f"call {c['client']} {c['op']} {c['a'][2:]} {c['b'][2:]}")
@@ -110,6 +112,8 @@ def describe(f):
     for seg in f["segments"]:
         calls = " || ".join(f"c{c['client']}:{c['op']}({c['a']}{',' + c['b'] if int(c['b'], 16) else ''})" for c in seg["calls"])
         sw = [w for w in seg.get("script", []) if w["from"] != 255 and w["at_yield"] >= 0]
+        if seg.get("respawn_before"):
+            calls = "restart[" + ",".join(f"c{c}" for c in seg["respawn_before"]) + "] " + calls
         if len(seg["calls"]) > 1:
             calls = "{ " + calls + " }" + (" preempt[" + ", ".join(f"c{w['from']}@{w['at_yield']}->c{w['to']}" for w in sw) + "]" if sw else "")
         parts.append(calls)
@@ -142,7 +146,7 @@ def write_evidence(tier, seed, cov, wall, violations, assumptions):
 
 SUMMED = ["runs", "calls", "forks", "nontrivial_runs", "isolation_checks", "disagreements", "signals_caught", "items_lost",
           "hung_children", "unstable", "fine_executions", "concurrent_segments", "concurrent_calls", "yield_points",
-          "preemptions", "baton_handoffs"]
+          "preemptions", "baton_handoffs", "long_runs", "very_long_runs", "churn_runs", "planned_respawns", "threads_started"]
 
 
 def run_check(tier, seed):
@@ -165,10 +169,11 @@ def run_check(tier, seed):
     t_scan = time.time() - t1
     total = {k: 0 for k in SUMMED}
     by_mode = {"serial": {k: 0 for k in SUMMED}, "fine": {k: 0 for k in SUMMED}}
-    per_op, clients_hist = {}, [0, 0, 0, 0]
+    per_op, clients_hist = {}, [0] * 8
     alias_same, alias_cross, adjacency = {}, {}, set()
     per_cell = {}
     found, unstable, samples = [], [], []
+    max_threads = max_len = 0
     for j, (rc, fnd, st, uns, err) in zip(jobs, results):
         if st is None:
             print(f"check.py: worker seed0={j['seed0']} on [{j['cell']}] produced no STATS (rc={rc}): {err[:300]}", file=sys.stderr)
@@ -177,8 +182,9 @@ def run_check(tier, seed):
             total[k] += st[k]; by_mode[j["mode"]][k] += st[k]
         for k, v in st["per_op"].items():
             per_op[k] = per_op.get(k, 0) + v
-        for i in range(4):
+        for i in range(8):
             clients_hist[i] += st["clients_hist"][i]
+        max_threads = max(max_threads, st["max_threads_in_one_execution"]); max_len = max(max_len, st["max_plan_len"])
         for k, v in st["alias_same_client"].items():
             alias_same[k] = alias_same.get(k, 0) + v
         for k, v in st["alias_cross_client"].items():
@@ -274,7 +280,10 @@ def run_check(tier, seed):
         "processes_forked": total["forks"],
         "simulated_time": "not applicable: the library has no clock, timer or deadline; progress is counted in calls and yield points",
         "build_cells": per_cell,
-        "clients_per_run_histogram": {"1": clients_hist[0], "2": clients_hist[1], "3": clients_hist[2], "4": clients_hist[3]},
+        "clients_per_run_histogram": {str(i + 1): clients_hist[i] for i in range(8)},
+        "plan_lengths": {"runs_with_150_plus_calls": total["long_runs"], "runs_with_3000_plus_calls": total["very_long_runs"], "longest_plan": max_len},
+        "thread_churn": {"runs_with_thread_restarts": total["churn_runs"], "planned_restarts": total["planned_respawns"],
+                         "caller_threads_started": total["threads_started"], "most_threads_seen_by_one_process": max_threads},
         "operations_in_catalogue": ops_total, "operations_exercised": ops_hit, "operations_never_called": never,
         "calls_per_operation_top": dict(sorted(per_op.items(), key=lambda kv: -kv[1])[:25]),
         "aliasing_adjacencies_same_client": alias_same,
